@@ -173,10 +173,12 @@ def bounded_files(sess: Session):
                    # the file is plain tab-separated text, not CSV: quote characters are data
                    [['i1', 'active', '"quoted" definition'], ['i2', 'active', '"unbalanced quote at the start'],
                     ['i3', 'active', 'plain'], ['i4', 'active', 'ends with a quote"']],
-                   [['i1', 'active', "it's; a, b"], ['i2', 'active', 'back\\slash and  two  spaces']]]
+                   [['i1', 'active', "it's; a, b"], ['i2', 'active', 'back\\slash and  two  spaces']],
+                   # only \n and \r\n end a row: other "line boundary" characters of str.splitlines() are data
+                   [['i1', 'active', 'a\x0bb\x0cc'], ['i2', 'active', 'd\x1ce\u2028f\u0085g\u2029h'], ['i3', 'active', 'plain']]]
         for header, rows, nl in itertools.product(headers, rowsets, ('\n', '\r\n')):
             path = os.path.join(tmp, 'ili.tsv')
-            with open(path, 'w', newline='') as fh:
+            with open(path, 'w', newline='', encoding='utf-8') as fh:
                 fh.write('\t'.join(header) + nl)
                 for r in rows:
                     fh.write('\t'.join(r) + nl)
